@@ -89,6 +89,11 @@ func c19Docs(rnd *core.Rand) [][]byte {
 		switch i % 4 {
 		case 0:
 			d = gen.Lines(rnd.Fork(), "default")
+			if i%8 == 4 {
+				// NUL bytes: Parse has to widen them (U+FFFD), which must never happen
+				// inside the caller's buffer
+				d = append(gen.Lines(rnd.Fork(), "hostile"), []byte("\n\nnul \x00 in \x00\x00 text\n\n# h\x00\n")...)
+			}
 		case 1:
 			d = gen.Soup(rnd.Fork(), "html", 10, 80)
 		case 2:
@@ -117,6 +122,31 @@ func walkDigest(blocks []*cm.RootBlock, yield bool) uint64 {
 			Post: func(cur *cm.Cursor) bool {
 				h = core.Mix(h, 7, uint64(cur.Node().Span().End))
 				return true
+			},
+		})
+	}
+	return h
+}
+
+// abortWalkDigest walks every block with a policy that prunes some subtrees and
+// ends the walk early by returning false from Post at the stopAt-th Post event.
+func abortWalkDigest(blocks []*cm.RootBlock, stopAt int, yield bool) uint64 {
+	h := uint64(42)
+	for _, rb := range blocks {
+		posts := 0
+		cm.Walk(rb.AsNode(), &cm.WalkOptions{
+			Pre: func(cur *cm.Cursor) bool {
+				sp := cur.Node().Span()
+				h = core.Mix(h, 1, uint64(sp.Start), uint64(sp.End), uint64(cur.Index()+2))
+				if yield && sp.End%2 == 0 {
+					runtime.Gosched()
+				}
+				return (sp.Start+sp.End)%5 != 0
+			},
+			Post: func(cur *cm.Cursor) bool {
+				posts++
+				h = core.Mix(h, 2, uint64(cur.Node().Span().End), uint64(posts))
+				return posts < stopAt
 			},
 		})
 	}
@@ -186,6 +216,13 @@ func (c19) Check(ctx *core.Ctx, c *core.Case) {
 	format.Format(&seqFormat, sBlocks)
 	seqWalk := walkDigest(sBlocks, false)
 	seqAcc := accessorDigest(sBlocks)
+	// walks that are ended early by Post (a multi-step precondition of seeded change C19-g:
+	// state released twice on the abort path only corrupts later, overlapping walks)
+	seqAbort := make([]uint64, 6)
+	for i := range seqAbort {
+		seqAbort[i] = abortWalkDigest(sBlocks, 1+i*3, false)
+	}
+	ctx.Count("ops:Walk-aborted-by-Post(sequential)", int64(len(seqAbort)))
 	var keys []string
 	for k := range sRefs {
 		keys = append(keys, k)
@@ -245,12 +282,54 @@ func (c19) Check(ctx *core.Ctx, c *core.Case) {
 		ctx.Count("ops:Parse", G)
 	}
 
+	// ---- phase A2: the inputs are adjacent sub-slices of one buffer (records of one read
+	// buffer): plain slicing leaves each input spare capacity that belongs to its neighbour.
+	// Seeded change C19-h (Parse widening NUL bytes in place, past the end of its input).
+	{
+		var big []byte
+		type rng struct{ a, b int }
+		var rs []rng
+		for _, dd := range docs {
+			rs = append(rs, rng{len(big), len(big) + len(dd)})
+			big = append(big, dd...)
+		}
+		big = append(big, make([]byte, 64)...) // spare room after the last record too
+		orig := append([]byte(nil), big...)
+		var wg sync.WaitGroup
+		start := make(chan struct{})
+		fps := make([]string, len(rs))
+		for i := range rs {
+			i := i
+			wg.Add(1)
+			go func() {
+				defer wg.Done()
+				<-start
+				ov := begin()
+				b, r := cm.Parse(big[rs[i].a:rs[i].b])
+				fps[i] = core.Fingerprint(b, r, core.FPOpts{})
+				end(ov)
+			}()
+		}
+		close(start)
+		wg.Wait()
+		for i := range rs {
+			if fps[i] != seqFP[i] {
+				fail("result_differs(Parse/adjacent)", "concurrent Parse of document %d, a sub-slice of a buffer shared with other inputs, differs from the sequential parse; input %s", i, core.Quote(docs[i]))
+				break
+			}
+		}
+		if !bytes.Equal(big, orig) {
+			fail("buffer_modified", "Parse of sub-slices of one buffer changed bytes of the buffer (outside or inside its own input)")
+		}
+		ctx.Count("ops:Parse(adjacent sub-slices)", int64(len(rs)))
+	}
+
 	// ---- phase B: concurrent use of one shared tree
 	{
 		const G = 48
 		var wg sync.WaitGroup
 		start := make(chan struct{})
-		opCounts := make([]int64, 8)
+		opCounts := make([]int64, 9)
 		for g := 0; g < G; g++ {
 			gr := rnd.Fork()
 			wg.Add(1)
@@ -258,7 +337,7 @@ func (c19) Check(ctx *core.Ctx, c *core.Case) {
 				defer wg.Done()
 				<-start
 				for k := 0; k < 4; k++ {
-					op := gr.Intn(8)
+					op := gr.Intn(9)
 					ci := gr.Intn(len(cfgs))
 					atomic.AddInt64(&opCounts[op], 1)
 					ov := begin()
@@ -305,6 +384,11 @@ func (c19) Check(ctx *core.Ctx, c *core.Case) {
 						if !bytes.Equal(bb.Bytes(), seqRender[0]) {
 							fail("result_differs(RenderHTML)", "concurrent RenderHTML differs")
 						}
+					case 8: // Walk ended early by Post, with pruning
+						ai := gr.Intn(len(seqAbort))
+						if d := abortWalkDigest(sBlocks, 1+ai*3, true); d != seqAbort[ai] {
+							fail("result_differs(Walk/aborted)", "concurrent Walk with pruning, ended by Post at event %d, observed a different event sequence", 1+ai*3)
+						}
 					case 7: // parse something else while others render
 						di := gr.Intn(len(docs))
 						own := append([]byte(nil), docs[di]...)
@@ -319,7 +403,7 @@ func (c19) Check(ctx *core.Ctx, c *core.Case) {
 		}
 		close(start)
 		wg.Wait()
-		names := []string{"Render/shared", "Render/private", "AppendBlock", "Format", "Walk", "accessors", "MatchReference+RenderHTML", "Parse-during-render"}
+		names := []string{"Render/shared", "Render/private", "AppendBlock", "Format", "Walk", "accessors", "MatchReference+RenderHTML", "Parse-during-render", "Walk-aborted-by-Post"}
 		for i, n := range opCounts {
 			ctx.Count("ops:"+names[i], n)
 		}
